@@ -155,7 +155,9 @@ impl<'a> Mon<'a> {
       return Err(format!("ROM window shows bytes that belong to no bank (index bytes {:02X} {:02X})", lo, hi));
     }
     self.rom_bank_now = b;
-    if self.r.ram_banks > 0 {
+    if self.r.ram.len() < 0x2000 {
+      self.ram_bank_now = 0; // no RAM, or a chip smaller than the window: one (mirrored) bank
+    } else if self.r.ram_banks > 0 {
       // RAM bank identification uses the shadow: find the bank whose first bytes match
       let probe: Vec<u8> = (0..8u16).map(|i| memory_read_byte(mp, 0xa000 + i)).collect();
       let mut found = None;
@@ -179,10 +181,15 @@ impl<'a> Mon<'a> {
       Region::RomN => self.r.rom[self.rom_bank_now * 0x4000 + (a as usize & 0x3fff)],
       Region::Vram => self.r.vram[a as usize & 0x1fff],
       Region::CartRam => {
-        if self.r.ram_banks == 0 {
-          observed
+        if self.r.ram.is_empty() {
+          // no cartridge RAM: an unmapped window (constant, ignores writes)
+          let c = self.r.constants[a as usize].get_or_insert(observed);
+          *c
         } else {
-          self.r.ram[self.ram_bank_now * 0x2000 + (a as usize & 0x1fff)]
+          // a chip smaller than the 8 KiB window repeats inside it: its address lines
+          // simply do not see the upper bits (cells store independently, addresses alias)
+          let n = self.r.ram.len();
+          self.r.ram[(self.ram_bank_now * 0x2000 + (a as usize & 0x1fff)) % n]
         }
       }
       Region::Wram => self.r.wram[a as usize & 0x1fff],
@@ -258,8 +265,11 @@ impl<'a> Mon<'a> {
     match region(a) {
       Region::Vram => self.r.vram[a as usize & 0x1fff] = v,
       Region::CartRam => {
-        if self.r.ram_banks > 0 {
-          self.r.ram[self.ram_bank_now * 0x2000 + (a as usize & 0x1fff)] = v
+        if !self.r.ram.is_empty() {
+          let n = self.r.ram.len();
+          self.r.ram[(self.ram_bank_now * 0x2000 + (a as usize & 0x1fff)) % n] = v
+        } else {
+          self.r.constants[a as usize] = Some(v);
         }
       }
       Region::Wram => self.r.wram[a as usize & 0x1fff] = v,
@@ -343,8 +353,9 @@ impl<'a> Mon<'a> {
       Region::Rom0 | Region::RomN | Region::Echo | Region::Unused => {}
       Region::Vram => self.r.vram[a as usize & 0x1fff] = v,
       Region::CartRam => {
-        if self.r.ram_banks > 0 {
-          self.r.ram[self.ram_bank_now * 0x2000 + (a as usize & 0x1fff)] = v;
+        if !self.r.ram.is_empty() {
+          let n = self.r.ram.len();
+          self.r.ram[(self.ram_bank_now * 0x2000 + (a as usize & 0x1fff)) % n] = v;
         }
       }
       Region::Wram => self.r.wram[a as usize & 0x1fff] = v,
@@ -394,6 +405,11 @@ fn build(cart_type: u8, rom_code: u8, ram_code: u8, rng: &mut Rng) -> (Box<Memor
       core.memory.cart_ram[k * 0x2000 + i] = (k as u8).wrapping_mul(0x35) ^ (i as u8) ^ 0xa5;
     }
   }
+  if ram_bytes > 0 && ram_bytes < 0x2000 {
+    for i in 0..ram_bytes {
+      core.memory.cart_ram[i] = (i as u8) ^ ((i >> 8) as u8).wrapping_mul(0x1d) ^ 0x5a;
+    }
+  }
   let _ = rng;
   let r = RefBus {
     rom: image.clone(),
@@ -430,7 +446,10 @@ fn build(cart_type: u8, rom_code: u8, ram_code: u8, rng: &mut Rng) -> (Box<Memor
 pub fn run(ctx: &mut Ctx) {
   let thorough = ctx.thorough();
   let seed = ctx.seed;
-  let configs: [(&'static str, u8, u8, u8); 3] = [("mbc1", 0x03, 0x06, 0x03), ("mbc3", 0x13, 0x06, 0x03), ("rom-only", 0x00, 0x00, 0x02)];
+  // (the last three were added after a seeded change that only misbehaved on a 2 KiB chip:
+  // small and absent cartridge RAM, and a second size of each controller)
+  let configs: [(&'static str, u8, u8, u8); 6] =
+    [("mbc1", 0x03, 0x06, 0x03), ("mbc3", 0x13, 0x06, 0x03), ("rom-only", 0x00, 0x00, 0x02), ("mbc1-2k", 0x03, 0x02, 0x01), ("mbc3-8k", 0x13, 0x03, 0x02), ("mbc1-noram", 0x01, 0x04, 0x00)];
   let mut unit = 0u64;
   let mut totals = (0u64, 0u64, 0u64);
   let mut by_region = [0u64; 11];
@@ -462,6 +481,11 @@ pub fn run(ctx: &mut Ctx) {
         if rng.chance(1, 3) {
           m.elapse(4 * (1 + rng.below(*rng.clone().pick(&[8u64, 300, 20_000])) as usize), 97);
         }
+      }
+      // the display is on for the rest of the history in two thirds of the units (power-on LCDC
+      // is 0): writes then land in every LCD mode, not only in the power-on vertical blank
+      if (chunk / 3) % 3 != 1 {
+        m.write(0xff40, 0x91, 97);
       }
       // the timer runs for the rest of the history (a third of the units: fast, slow, off)
       match chunk % 3 {
@@ -513,6 +537,9 @@ pub fn run(ctx: &mut Ctx) {
           m.elapse(4 * (1 + rng.below(*rng.clone().pick(&[4u64, 170, 800])) as usize), 1);
           let off = *rng.pick(&[0x07u8, 0x07, 0x06, 0x05, 0x04, 0x41, 0x45, 0x40, 0x0f, 0x00, 0x47, 0x42]);
           m.write(0xff00 + off as u16, rng.u8(), 1);
+          // and the memories the LCD controller itself reads, in whatever mode it is in now
+          let a = if rng.chance(1, 2) { 0xfe00 + rng.below(0xa0) as u16 } else { 0x8000 + rng.below(0x2000) as u16 };
+          m.write(a, rng.u8(), 1);
         }
       }
       m.ctx.distinct_key(hash_words(&[ci as u64, chunk as u64, 1]));
